@@ -14,8 +14,18 @@ SOURCES = ['frappy/datatypes.py', 'frappy/properties.py', 'frappy/lib/enum.py', 
            'frappy/params.py', 'frappy/modulebase.py', 'frappy/protocol/dispatcher.py', 'frappy/secnode.py']
 DISPATCHED = ['InSet', 'Den', 'Conv', 'DenWire', 'DenConv', 'JsonKind', 'Exported', 'ConvW', 'Accepts']
 DISPATCH_FALLBACK = {'DenWire': 'DenConv', 'Conv': 'InSet', 'DenConv': 'Den', 'ConvW': 'Conv'}
-INLINE = ['Parameter.export_value']
+INLINE = ['Parameter.export_value', 'secop_error']
+# kinds of the members of the value sets (each InSet_<Class> of contracts/datatypes.py starts with this kind test)
+_KINDS = [('TupleOf', 'tuple'), ('ArrayOf', 'tuple'), ('StructOf', 'dict'), ('IntRange', 'int'),
+          ('BoolType', 'bool'), ('StringType', 'str'), ('BLOBType', 'bytes'), ('EnumType', 'enum')]
+ABSTRACT_FACTS = {'Conv': _KINDS, 'ConvW': _KINDS, 'InSet': [('TupleOf', 'tuple'), ('ArrayOf', 'tuple'), ('StructOf', 'dict'), ('IntRange', 'int'),
+                            ('FloatRange', 'float'), ('ScaledInteger', 'float'), ('BoolType', 'bool'), ('StringType', 'str'),
+                            ('BLOBType', 'bytes'), ('EnumType', 'enum')]}
 GHOSTS = ['driver_calls', 'hook_calls', 'sent']
+# module_of(secnode, name): the module object SecNode.get_module(name) hands out (None when there is none)
+UFS = {'module_of': (['obj', 'str'], 'val', 'Module|none'),
+       # wname(f): the parameter name a driver write method belongs to (f is getattr(cls, 'write_' + wname(f)))
+       'wname': (['obj'], 'str')}
 DYN_TYPES = {'Module': [('write_', 'dyn::Module.write_', 'pname'), ('read_', 'dyn::Module.read_', 'pname')]}
 
 ASSUMPTIONS = [
@@ -35,22 +45,24 @@ ASSUMPTIONS = [
 CLASSES = {
     'DataType': dict(abstract=True, fields={}),
     'Accessible': dict(fields={'export': 'any', 'name': 'str'}),
-    'Parameter': dict(fields={'datatype': 'DataType', 'value': 'any', 'readerror': 'any', 'timestamp': 'any',
+    'Parameter': dict(fields={'datatype': 'DataType', 'value': 'any', 'readerror': 'any', 'timestamp': 'float|none',
                               'constant': 'any', 'readonly': 'bool', 'export': 'any', 'name': 'str',
-                              'omit_unchanged_within': 'number', 'default': 'any', 'given': 'bool'},
+                              'omit_unchanged_within': 'float', 'default': 'any', 'given': 'bool'},
                       inv=['inv(self.datatype)', 'self.value is None or InSet(self.datatype, self.value)',
                            'is_str(self.export) or self.export is False',
-                           'self.timestamp is None or is_number(self.timestamp)']),
+                           'self.timestamp is None or self.timestamp >= 0', 'self.omit_unchanged_within >= 0']),
     'Command': dict(fields={'argument': 'DataType|none', 'result': 'DataType|none', 'export': 'any', 'name': 'str',
                             'func': 'callable:cmdfunc'},
                     inv=['self.argument is None or inv(self.argument)', 'self.result is None or inv(self.result)']),
     'Module': dict(fields={'name': 'str', 'parameters': 'dict:Parameter', 'commands': 'dict:Command',
                            'accessiblename2attr': 'dict:str', 'export': 'any', 'accessLock': 'rlock', 'updateLock': 'rlock',
-                           'paramCallbacks': 'dict', 'updateCallback': 'callable:updateCallback', 'log': 'any'},
+                           'paramCallbacks': 'dict:list:tuple|callable:paramcallback|tuple', 'updateCallback': 'callable:updateCallback', 'log': 'any'},
                    elem_inv={'accessiblename2attr': 'WireOk(self, k, v)', 'parameters': 'ParamOk(self, k, v)',
                              'commands': 'CommandOk(self, k, v)'}),
-    'SecNode': dict(fields={'modules': 'dict:Module', 'export': 'list:str'}, elem_inv={'modules': 'ModuleOk(self, k, v)'}),
-    'Dispatcher': dict(fields={'secnode': 'SecNode', 'log': 'any'}, inv=['inv(self.secnode)']),
+    'SecNode': dict(fields={'modules': 'dict:Module', 'export': 'list:str'}),
+    'Exception': dict(fields={'raising_methods': 'any', 'report_error': 'any'}, bases=[]),
+    'SECoPError': dict(fields={'raising_methods': 'list', 'report_error': 'bool'}),
+    'Dispatcher': dict(fields={'secnode': 'SecNode', 'log': 'any'}),
 }
 
 
@@ -79,13 +91,13 @@ def AtMostOneMore(old_log, new_log):
 
 def ValidWriteCall(m, pname, offered, call):
     """the recorded driver call carries a member of the parameter's value set that denotes the offered value"""
-    return (same_object(call[0], m) and call[1] == pname
-            and InSet(m.parameters[pname].datatype, call[2]) and Den(m.parameters[pname].datatype, call[2], offered))
+    return (same_object(nth(call, 0), m) and nth(call, 1) == pname
+            and InSet(m.parameters[pname].datatype, nth(call, 2)) and Den(m.parameters[pname].datatype, nth(call, 2), offered))
 
 
 def WriteCalls(m, pname, value, dc0, dc1, hc0, hc1):
     return (AtMostOneMore(dc0, dc1) and is_prefix(hc0, hc1)
-            and implies(len(dc1) > len(dc0), ValidWriteCall(m, pname, value, dc1[-1])))
+            and implies(len(dc1) > len(dc0), ValidWriteCall(m, pname, value, last(dc1))))
 
 
 def WriteCallsExc(m, pname, value, dc0, dc1, hc0, hc1, exc):
@@ -99,27 +111,113 @@ def Fitting(exc):
             or issubclass(exc, ReadOnlyError) or issubclass(exc, BadValueError) or issubclass(exc, ProtocolError))
 
 
-def DenWireOf(self, modulename, exportedname, value):
-    return value
+def ChangeTarget(self, modulename, exportedname):
+    """the (module, parameter name) a change request addresses, or None when it must be refused"""
+    mod = module_of(self.secnode, modulename)
+    if mod is None:
+        return None
+    if exportedname not in mod.accessiblename2attr:
+        return None
+    pname = mod.accessiblename2attr[exportedname]
+    if pname not in mod.parameters:
+        return None
+    if mod.parameters[pname].constant is not None or mod.parameters[pname].readonly:
+        return None
+    return (mod, pname)
 
 
 def ChangeAllowed(self, modulename, exportedname):
-    """module and parameter exist under these wire names and the parameter may be changed"""
-    m = self.secnode.modules
-    return (modulename in m and exportedname in m[modulename].accessiblename2attr
-            and m[modulename].accessiblename2attr[exportedname] in m[modulename].parameters
-            and m[modulename].parameters[m[modulename].accessiblename2attr[exportedname]].constant is None
-            and not m[modulename].parameters[m[modulename].accessiblename2attr[exportedname]].readonly)
+    return ChangeTarget(self, modulename, exportedname) is not None
+
+
+def LastCallValid(target, calls):
+    """the driver call just recorded is the write of the addressed parameter with a member of its value set"""
+    if target is None:
+        return False
+    call = last(calls)
+    return (same_object(nth(call, 0), target[0]) and nth(call, 1) == target[1]
+            and InSet(target[0].parameters[target[1]].datatype, nth(call, 2)))
+
+
+def CommandTarget(self, modulename, exportedname):
+    """the (module, command name) a do request addresses, or None when it must be refused"""
+    mod = module_of(self.secnode, modulename)
+    if mod is None:
+        return None
+    if exportedname not in mod.accessiblename2attr:
+        return None
+    cname = mod.accessiblename2attr[exportedname]
+    if cname not in mod.commands:
+        return None
+    return (mod, cname)
+
+
+def ArgOk(argtype, args, kwds):
+    """the arguments a command function was called with are the validated argument, unpacked as documented"""
+    if argtype is None:
+        return len(args) == 0 and len(kwds) == 0
+    if isinstance(argtype, TupleOf):
+        return InSet(argtype, args) and len(kwds) == 0
+    if isinstance(argtype, StructOf):
+        return InSet(argtype, kwds) and len(args) == 0
+    return len(args) == 1 and InSet(argtype, args[0]) and len(kwds) == 0
+
+
+def CommandCall(cmd, module_obj, call):
+    return (same_object(nth(call, 0), module_obj) and nth(call, 1) == cmd.name
+            and ArgOk(cmd.argument, nth(call, 2, 'tuple'), nth(call, 3, 'dict')))
+
+
+def LastCommandValid(target, calls):
+    """the recorded command call is the addressed command with a member of the argument value set (or no argument)"""
+    if target is None:
+        return False
+    return CommandCall(target[0].commands[target[1]], target[0], last(calls))
+
+
+def DoCalls(cmd, module_obj, dc0, dc1):
+    return AtMostOneMore(dc0, dc1) and implies(len(dc1) > len(dc0), CommandCall(cmd, module_obj, last(dc1)))
+
+
+def SplitSpec(specifier, default):
+    """(module name, accessible name) addressed by a specifier"""
+    if ':' in specifier:
+        parts = specifier.split(':', 1)
+        return (parts[0], parts[1])
+    return (specifier, default)
+
+
+def ReadTarget(self, modulename, exportedname):
+    mod = module_of(self.secnode, modulename)
+    if mod is None:
+        return None
+    if exportedname not in mod.accessiblename2attr:
+        return None
+    pname = mod.accessiblename2attr[exportedname]
+    if pname not in mod.parameters:
+        return None
+    return (mod, pname)
+
+
+def Entry(p):
+    """what the cache holds for a parameter: its error if there is one, else its value"""
+    return (p.readerror, None) if p.readerror is not None else (None, p.value)
+
+
+def Emitted(m, pname, sent0, sent1):
+    """exactly one message was handed to the dispatcher, built from the entry the cache holds now"""
+    return (len(sent1) == len(sent0) + 1 and is_prefix(sent0, sent1)
+            and same_object(nth(last(sent1), 0), m) and nth(last(sent1), 1) == pname
+            and same_value(nth(last(sent1), 2), m.parameters[pname].value)
+            and same_value(nth(last(sent1), 3), m.parameters[pname].readerror))
 
 
 CONTRACTS = [
     # ------------------------------------------------------------------ assumed environment
     dict(key='SecNode.get_module', file='frappy/secnode.py', func='SecNode.get_module', serves=[], trusted=True,
          self_type='SecNode', requires=[],
-         ensures={'known': 'result is None or (is_str(modulename) and modulename in self.modules'
-                           ' and same_object(result, self.modules[modulename]) and inv(result))'},
-         raises={'nosuch': 'issubclass(exc, NoSuchModuleError)',
-                 'unknown': 'not (is_str(modulename) and modulename in self.modules)'},
+         ensures={'known': 'same_object(result, module_of(self, modulename)) and (result is None or inv(result))'},
+         raises={'nosuch': 'issubclass(exc, NoSuchModuleError)', 'unknown': 'module_of(self, modulename) is None'},
          result_type='Module', result_kind='Module|none'),
     # interface contracts of datatypes (verified for every concrete class in contracts/datatypes.py)
     dict(key='iface::DataType.validate', file=None, func=None, signature='self, value, previous=None', serves=[], trusted=True,
@@ -135,36 +233,134 @@ CONTRACTS = [
          ensures={'conv': 'ConvW(self, result)', 'same': 'DenWire(self, result, value)'},
          raises={'badvalue': 'issubclass(exc, BadValueError)'}),
     dict(key='iface::DataType.export_value', file=None, func=None, signature='self, value', serves=[], trusted=True,
-         requires=['inv(self)', 'InSet(self, value)'],
-         ensures={'kind': 'JsonKind(self, result)', 'form': 'Exported(self, value, result)'}, raises='never'),
+         requires=['inv(self)'],
+         ensures={'kind': 'implies(InSet(self, value), JsonKind(self, result) and Exported(self, value, result))'},
+         raises={'badvalue': 'not InSet(self, value)', 'cls': 'issubclass(exc, BadValueError)'}),
     # the generated write wrapper as seen by its callers (verified below as new_wfunc)
     dict(key='dyn::Module.write_', file=None, func=None, signature='self, value', serves=[], trusted=True,
-         bound_params=['pname'],
-         requires=['inv(self)', 'pname in self.parameters'],
+         requires=['pname in self.parameters'],
          ghost_modifies=['driver_calls', 'hook_calls', 'sent'],
-         modifies=['value', 'readerror', 'timestamp'], raises_modifies=[],
+         modifies=['value', 'readerror', 'timestamp'], raises_modifies=[], raises_ghost_modifies=['driver_calls', 'hook_calls'],
          ensures={'validated': 'InSet(self.parameters[pname].datatype, self.parameters[pname].value)',
-                  'calls': 'WriteCalls(self, pname, value, old(driver_calls), driver_calls, old(hook_calls), hook_calls)',
-                  'inv': 'inv(self)'},
-         raises={'calls': 'WriteCallsExc(self, pname, value, old(driver_calls), driver_calls, old(hook_calls), hook_calls, exc)',
-                 'inv': 'inv(self)'}),
+                  'calls': 'WriteCalls(self, pname, value, old(driver_calls), driver_calls, old(hook_calls), hook_calls)'},
+         raises={'calls': 'WriteCallsExc(self, pname, value, old(driver_calls), driver_calls, old(hook_calls), hook_calls, exc)'}),
+    # the generated read wrapper as seen by its callers
+    dict(key='dyn::Module.read_', file=None, func=None, signature='self', serves=[], trusted=True,
+         requires=['pname in self.parameters'],
+         ghost_modifies=['sent'], modifies=['value', 'readerror', 'timestamp'],
+         ensures={'valid': 'InSet(self.parameters[pname].datatype, self.parameters[pname].value)'},
+         raises={}),
+    dict(key='Command.__get__', file='frappy/params.py', func='Command.__get__', serves=[], trusted=True, self_type='Command',
+         requires=['inv(self)'], ensures={}, raises='never',     # commands are properly configured (func is set): assumed
+         result_abstract=dict(contract='cmdfunc', bound={'cmd': 'self', 'mod': 'obj'})),
+    # a driver's command function: any result, any exception; the call is recorded
+    dict(key='cmdfunc', file=None, func=None, packed_args=True, serves=[], trusted=True,
+         requires=[], ghost_modifies=['driver_calls', 'sent'], modifies=['value', 'readerror', 'timestamp'],
+         ensures={'logged': 'driver_calls == old(driver_calls) + [(mod, cmd.name, args, kwds)]'},
+         raises={'logged': 'driver_calls == old(driver_calls) + [(mod, cmd.name, args, kwds)]'}),
+    dict(key='Command.do', file='frappy/params.py', func='Command.do', serves=['C04'], self_type='Command',
+         params={'module_obj': 'Module'},
+         requires=['inv(self)', 'argument is None or is_wire(argument)'], check_frame=False,
+         ghost_modifies=['driver_calls', 'sent'], modifies=['value', 'readerror', 'timestamp'],
+         ensures={'calls': 'DoCalls(self, module_obj, old(driver_calls), driver_calls)',
+                  'once': 'len(driver_calls) == len(old(driver_calls)) + 1',
+                  'result': 'self.result is None or Conv(self.result, result)'},
+         raises={'calls': 'DoCalls(self, module_obj, old(driver_calls), driver_calls)',
+                 'badvalue': 'implies(len(driver_calls) == len(old(driver_calls)), issubclass(exc, BadValueError))'}),
+    dict(key='Dispatcher._execute_command', file='frappy/protocol/dispatcher.py', func='Dispatcher._execute_command',
+         serves=['C04'], self_type='Dispatcher', params={'modulename': 'str', 'exportedname': 'str'},
+         requires=['inv(self)', 'argument is None or is_wire(argument)'],
+         modifies=['value', 'readerror', 'timestamp'], check_frame=False,
+         result_kind='tuple',
+         ensures={'allowed': 'CommandTarget(self, modulename, exportedname) is not None',
+                  'pair': 'is_tuple(result) and len(result) == 2',
+                  'once': 'AtMostOneMore(old(driver_calls), driver_calls)',
+                  'valid': 'implies(len(driver_calls) > len(old(driver_calls)), LastCommandValid(old(CommandTarget(self, modulename, exportedname)), driver_calls))'},
+         raises={'once': 'AtMostOneMore(old(driver_calls), driver_calls)',
+                 'valid': 'implies(len(driver_calls) > len(old(driver_calls)), LastCommandValid(old(CommandTarget(self, modulename, exportedname)), driver_calls))',
+                 'fitting': 'implies(len(driver_calls) == len(old(driver_calls)), Fitting(exc))'}),
+    dict(key='Dispatcher._getParameterValue', file='frappy/protocol/dispatcher.py', func='Dispatcher._getParameterValue',
+         serves=['C04', 'C06'], self_type='Dispatcher', params={'modulename': 'str', 'exportedname': 'str'},
+         requires=['inv(self)'],
+         modifies=['value', 'readerror', 'timestamp'], check_frame=False,
+         result_kind='tuple',
+         ensures={'described': 'ReadTarget(self, modulename, exportedname) is not None',
+                  'pair': 'is_tuple(result) and len(result) == 2 and is_dict(result[1])',
+                  'nowrite': 'len(driver_calls) == len(old(driver_calls))'},
+         raises={'nowrite': 'len(driver_calls) == len(old(driver_calls))',
+                 'fitting': 'implies(ReadTarget(self, modulename, exportedname) is None, Fitting(exc))'}),
+    # ================================================================== C05: the update funnel
+    # the dispatcher callback: hands (module, parameter) to the connections; records what the entry held at that moment.
+    # Lock discipline: it must be called while the module's updateLock is held (store + notify atomic)
+    dict(key='updateCallback', file=None, func=None, packed_args=True, serves=[], trusted=True,
+         requires=["held(nth(args, 0, 'Module').updateLock)"], ghost_modifies=['sent'],
+         ensures={'logged': "sent == old(sent) + [(nth(args, 0), nth(args, 1, 'Parameter').name, nth(args, 1, 'Parameter').value, nth(args, 1, 'Parameter').readerror)]"},
+         raises='never'),
+    # parameter callbacks (paramCallbacks): assumed not to touch this module's cache nor to emit messages themselves
+    dict(key='paramcallback', file=None, func=None, packed_args=True, serves=[], trusted=True,
+         requires=[], ensures={}, raises={}),
+    dict(key='Module.announceUpdate', file='frappy/modulebase.py', func='Module.announceUpdate', serves=['C05'],
+         self_type='Module', params={'pname': 'str', 'timestamp': 'float|none', 'validate': 'bool', 'err': 'Exception|none'},
+         requires=['inv(self)', 'pname in self.parameters',
+                   'timestamp is None or timestamp >= 0',
+                   'implies(err is None and not validate, Conv(self.parameters[pname].datatype, value))',
+                   'pname in self.paramCallbacks'],
+         modifies=['value', 'readerror', 'timestamp', 'report_error'], check_frame=False,
+         ensures={'emit_or_silent': 'Emitted(self, pname, old(sent), sent) or (len(sent) == len(old(sent))'
+                                    ' and same_value(self.parameters[pname].readerror, old(self.parameters[pname].readerror))'
+                                    ' and py_eq(self.parameters[pname].value, old(self.parameters[pname].value)))',
+                  'recovery': 'implies(old(self.parameters[pname].readerror) is not None and self.parameters[pname].readerror is None,'
+                              ' Emitted(self, pname, old(sent), sent))',
+                  'change': 'implies(self.parameters[pname].readerror is None and old(self.parameters[pname].readerror) is None'
+                            ' and not py_eq(self.parameters[pname].value, old(self.parameters[pname].value)),'
+                            ' Emitted(self, pname, old(sent), sent))',
+                  'stored': 'implies(err is None and not validate, same_value(self.parameters[pname].value, value)'
+                            ' and self.parameters[pname].readerror is None)',
+                  'unlocked': 'not held(self.updateLock) or old(held(self.updateLock))'},
+         raises='never'),
     # ================================================================== C04: request routing
     dict(key='Dispatcher._setParameterValue', file='frappy/protocol/dispatcher.py', func='Dispatcher._setParameterValue',
          serves=['C04'], self_type='Dispatcher', params={'modulename': 'str', 'exportedname': 'str'},
          requires=['inv(self)', 'is_wire(value)'],
          modifies=['value', 'readerror', 'timestamp'], check_frame=False,
+         result_kind='tuple',
          ensures={'allowed': 'ChangeAllowed(self, modulename, exportedname)',
+                  'pair': 'is_tuple(result) and len(result) == 2',
                   'once': 'AtMostOneMore(old(driver_calls), driver_calls)',
-                  'valid': 'implies(len(driver_calls) > len(old(driver_calls)), ValidWriteCall(self.secnode.modules[modulename],'
-                           ' self.secnode.modules[modulename].accessiblename2attr[exportedname], DenWireOf(self, modulename, exportedname, value), driver_calls[-1]))'},
+                  'valid': 'implies(len(driver_calls) > len(old(driver_calls)), LastCallValid(old(ChangeTarget(self, modulename, exportedname)), driver_calls))'},
          raises={'once': 'AtMostOneMore(old(driver_calls), driver_calls)',
-                 'only_if_allowed': 'implies(len(driver_calls) > len(old(driver_calls)) or len(hook_calls) > len(old(hook_calls)),'
-                                    ' ChangeAllowed(self, modulename, exportedname))',
+                 'valid': 'implies(len(driver_calls) > len(old(driver_calls)), LastCallValid(old(ChangeTarget(self, modulename, exportedname)), driver_calls))',
+                 'only_if_allowed': 'implies(len(hook_calls) > len(old(hook_calls)), ChangeAllowed(self, modulename, exportedname))',
                  'fitting': 'implies(len(driver_calls) == len(old(driver_calls)) and len(hook_calls) == len(old(hook_calls)), Fitting(exc))',
                  'cache': "unchanged('value') and unchanged('readerror') and unchanged('timestamp')",
                  'silent': 'len(sent) == len(old(sent))'}),
+    dict(key='Dispatcher.handle_change', file='frappy/protocol/dispatcher.py', func='Dispatcher.handle_change',
+         serves=['C04'], self_type='Dispatcher', params={'specifier': 'str|none'},
+         requires=['inv(self)', 'is_wire(data)'], modifies=['value', 'readerror', 'timestamp'], check_frame=False,
+         ensures={'reply': "result[0] == 'changed' and result[1] == specifier",
+                  'allowed': "ChangeAllowed(self, SplitSpec(specifier, 'target')[0], SplitSpec(specifier, 'target')[1])",
+                  'once': 'AtMostOneMore(old(driver_calls), driver_calls)'},
+         raises={'once': 'AtMostOneMore(old(driver_calls), driver_calls)',
+                 'fitting': 'implies(len(driver_calls) == len(old(driver_calls)) and len(hook_calls) == len(old(hook_calls)), Fitting(exc))',
+                 'cache': "unchanged('value') and unchanged('readerror') and unchanged('timestamp')"}),
+    dict(key='Dispatcher.handle_do', file='frappy/protocol/dispatcher.py', func='Dispatcher.handle_do',
+         serves=['C04'], self_type='Dispatcher', params={'specifier': 'str|none'},
+         requires=['inv(self)', 'data is None or is_wire(data)'], modifies=['value', 'readerror', 'timestamp'], check_frame=False,
+         ensures={'reply': "result[0] == 'done' and result[1] == specifier",
+                  'once': 'AtMostOneMore(old(driver_calls), driver_calls)'},
+         raises={'once': 'AtMostOneMore(old(driver_calls), driver_calls)',
+                 'fitting': 'implies(len(driver_calls) == len(old(driver_calls)), Fitting(exc))'}),
+    dict(key='Dispatcher.handle_read', file='frappy/protocol/dispatcher.py', func='Dispatcher.handle_read',
+         serves=['C04', 'C06'], self_type='Dispatcher', params={'specifier': 'str|none'},
+         requires=['inv(self)'], modifies=['value', 'readerror', 'timestamp'], check_frame=False,
+         ensures={'reply': "result[0] == 'reply' and result[1] == specifier and is_list(result[2]) and len(result[2]) == 2",
+                  'nowrite': 'len(driver_calls) == len(old(driver_calls))'},
+         raises={'nowrite': 'len(driver_calls) == len(old(driver_calls))'}),
 ]
 
-LOOPS = {}
+LOOPS = {
+    # announceUpdate: for cbfunc, cbargs in self.paramCallbacks[pname]: try: cbfunc(*cbargs, *value_err) except Exception: pass
+    'Module.announceUpdate#0': dict(header='self.paramCallbacks[pname]', invariant={'silent': 'sent == old(sent)'}),
+}
 
 register(globals())
